@@ -4,15 +4,28 @@
 package controller
 
 // ---- C02: the finality gate ----------------------------------------------------------------------
-// CommitCertificate is the only place a block is appended. Its body is not verified here (store,
-// mempool and indexer code); what is verified is that every caller establishes the gate below.
+// CommitCertificate is the only place a block is appended. What is verified for every caller is that it establishes
+// the gate below; what is verified of the body (store, mempool and indexer calls are opaque) is C07's clause: before the
+// block is applied to the working state, and before anything is indexed or committed, a deferred FSM.Reset() is
+// registered on every path - so whichever way the function returns from there (block rejected by
+// ApplyAndValidateBlock, indexing or commit error, success) the working state machine is reset on the way out and a
+// rejected peer block leaves no uncommitted writes behind.
 //@ func (*Controller).CommitCertificate
-//@   trusted
+//@   modifies *
+//@   callsite ApplyAndValidateBlock requires[cleanupregistered] deferred(Reset)
+//@   callsite IndexQC requires[cleanupregistered] deferred(Reset)
+//@   callsite Commit requires[cleanupregistered] deferred(Reset)
 //@   requires[phase] qc != nil && qc.Header != nil && qc.Header.Phase == lib.Phase_PRECOMMIT_VOTE
 //@   requires[height] block != nil && block.BlockHeader != nil && qc.Header.Height == block.BlockHeader.Height && block.BlockHeader.Height == c.FSM.height
 //@   requires[binds] bytes(qc.BlockHash) == headerDigest(block.BlockHeader) && qc.Results != nil && bytes(qc.ResultsHash) == hashOf(pbBytes(qc.Results))
 
+// A peer block is untrusted bytes that decoded: the handler never dereferences a part of the certificate or block that
+// the checks done so far have not shown to be there (no nil dereference, no index out of range - `nopanic`), given a
+// wired controller (logger, root-chain manager, consensus module, state machine in place: an assumption about the
+// node's own set-up, not about the message).
 //@ func (*Controller).HandlePeerBlock
+//@   requires[wired] c != nil && msg != nil && !isnil(c.log) && !isnil(c.RCManager) && c.Consensus != nil && !isnil(c.Consensus.Controller) && c.FSM != nil && c.Metrics != nil && c.isSyncing != nil
+//@   nopanic
 //@   callsite CommitCertificate requires[same] arg1 == old(msg.BlockAndCertificate)
 //@   callsite CommitCertificate requires[ids] (syncing && qc.Header.Height % CheckpointFrequency != 0) || (qc.Header.NetworkId == c.Config.NetworkID && qc.Header.ChainId == c.Config.ChainId)
 //@   callsite CommitCertificate requires[certified] (syncing && qc.Header.Height % CheckpointFrequency != 0) || (aggVerifies(committeeOf(v.MultiKey), bytes(qc.Signature.Bitmap), signBytesOf(qc), bytes(qc.Signature.Signature)) && signedPowerW(v.ValidatorSet.ValidatorSet, bytes(qc.Signature.Bitmap), false, len(v.ValidatorSet.ValidatorSet)) >= v.MinimumMaj23)
@@ -29,3 +42,19 @@ package controller
 //@   callsite IndexQC requires[certified] atomicFlag(c.isSyncing) || (aggVerifies(committeeOf(vs.MultiKey), bytes(candidate.LastQuorumCertificate.Signature.Bitmap), signBytesOf(candidate.LastQuorumCertificate), bytes(candidate.LastQuorumCertificate.Signature.Signature)) && signedPowerW(vs.ValidatorSet.ValidatorSet, bytes(candidate.LastQuorumCertificate.Signature.Bitmap), false, len(vs.ValidatorSet.ValidatorSet)) >= vs.MinimumMaj23)
 //@   callsite IndexQC requires[view] atomicFlag(c.isSyncing) || (candidate.LastQuorumCertificate.Header.Height == candidate.Height - 1 && candidate.LastQuorumCertificate.Header.NetworkId == c.Config.NetworkID && candidate.LastQuorumCertificate.Header.ChainId == c.Config.ChainId)
 //@   callsite IndexQC requires[committee] atomicFlag(c.isSyncing) || committeeOf(vs.MultiKey) == committeeAt(rootChainIdAt(candidate.LastQuorumCertificate.Header.Height), candidate.LastQuorumCertificate.Header.RootHeight)
+
+// ---- C02 / C01 / C14: the committee a certificate is judged against -----------------------------------------------
+// LoadCommittee answers with the committee in force at exactly the root height asked for - or fails. It never
+// substitutes the committee of another root height (the certificate's sign bytes bind its root height; voting power and
+// membership differ between root heights).
+//@ func (*Controller).LoadCommittee
+//@   pure
+//@   ensures[atheight] isnil(result1) ==> committeeOf(result0.MultiKey) == committeeAt(rootChainId, rootHeight) && result0.ValidatorSet != nil
+
+// ---- C19: gossiping a consensus message that came off the wire ------------------------------------------------------
+// ShouldGossip classifies a decoded peer message as "proposer message: always gossip" by its Header alone; the
+// certificate inside may be anything the decoder accepts - including one without a header. GossipConsensus never
+// dereferences what is not there (`nopanic`, given a wired controller and a non-nil message).
+//@ func (*Controller).GossipConsensus
+//@   requires[wired] c != nil && message != nil && !isnil(c.log) && c.P2P != nil
+//@   nopanic
